@@ -11,7 +11,6 @@ CONSTANTS
   MaxBig = 100000
   AllowClose = TRUE
   MaxAhead = 100000
-  FixD1 = TRUE
   FixD3 = TRUE
   FixD4 = TRUE
   FixD5 = TRUE
